@@ -4,3 +4,6 @@ import Dicom.Props.C15
 #print axioms Dicom.C15.storage_never_clobbers
 #print axioms Dicom.C15.names_stay_distinct
 #print axioms Dicom.C15.store_end_to_end
+#print axioms Dicom.C15.ops_keep_unremoved
+#print axioms Dicom.C15.store_in_history_is_fresh
+#print axioms Dicom.C15.ops_names_distinct
